@@ -6,6 +6,9 @@ C19, part 2 (clone of EvalSafeEnv.lean for the strengthened invariant): the envi
 namespace Grol.K
 open Grol.E
 
+theorem runM_rootBindsFunc (name : String) (st : St) :
+    runM (rootBindsFunc name) st = (.ok (rootFnOf st name), st) := rfl
+
 /-! ### stores -/
 
 theorem lookupStore_mem' {store : List (String × Obj)} {name : String} {v : Obj}
@@ -851,6 +854,7 @@ theorem post_envCreate {st : St} (hI : Inv st) {e : Nat} (he : e < st.frames.siz
   unfold envCreate
   refine Post.bind (post_valueOf hI hval).and_run ?_
   rintro v s hIs _ ⟨⟨rfl, hv, hnr⟩, hrun⟩
+  refine Post.bind_read (runM_rootBindsFunc _ _) ?_
   refine Post.bind (Q := fun _ _ => True) ?_ ?_
   · refine post_store (name := name) hI he hv hnr (hw v hrun) ?_
     intro f; exact ⟨rfl, rfl, rfl, rfl⟩
@@ -869,6 +873,7 @@ theorem post_envStoreAt {st : St} (hI : Inv st) {writer e : Nat} (hwr : writer <
   refine Post.bind_read (runM_getFrame hf) ?_
   refine Post.bind (post_functionChanged hI hwr _) ?_
   rintro _ s hIs hle ⟨hsz, hsame⟩
+  refine Post.bind_read (runM_rootBindsFunc _ _) ?_
   refine Post.bind (Q := fun _ _ => True) ?_ ?_
   · refine post_store (name := name) hIs (by omega) (by rw [hsz]; exact hv) hnr (hw.of_same hsame) ?_
     intro f; exact ⟨rfl, rfl, rfl, rfl⟩
@@ -963,6 +968,7 @@ theorem post_setNoChecks {st : St} (hI : Inv st) {e : Nat} (he : e < st.frames.s
         refine Post.bind_read (runM_getFrame hfre) ?_
         refine Post.bind (post_functionChanged hIs (by omega) _) ?_
         rintro _ s2 hIs2 hle2 ⟨hsz2, _⟩
+        refine Post.bind_read (runM_rootBindsFunc _ _) ?_
         refine Post.bind (Q := fun _ _ => True) ?_ ?_
         · refine post_store (name := rn) hIs2 (by omega) (by rw [hsz2]; exact hv) hnr
             (fun h => by rw [hc] at h; exact Bool.noConfusion h) ?_
